@@ -368,4 +368,26 @@ theorem C15_open_finding_witness :
     openSt.pos = some (5, (openB 5).hash) ∧ openSt.rows = [{ key := 9, block := 3, payload := 90 }] ∧
       expected openP openB 5 = [] := by decide
 
+/-! ### the second open finding, in the model
+
+`StepOK.uniq` (no key twice on one chain) cannot be dropped either.  The identity registry refuses a second
+registration and the sequencer numbers its transactions, but the event trigger registry lets its owner register the
+same trigger again at any time.  The insert is an upsert that overwrites the row's block number, the reorg reset
+deletes by block number: after a reset that reaches back to the second registration but not to the first, the
+registration is gone although its first registration is still canonical (and with it, by the foreign key, the
+record that the trigger has fired).  The same history fails on the implementation (known finding
+`reregistered-trigger-rolled-back`). -/
+
+def reregA : Chain := fun n =>
+  { hash := n + 1, parent := n, evs := if n = 1 then [(9, 90)] else if n = 4 then [(9, 91)] else [] }
+def reregB : Chain := fun n =>
+  if n ≤ 3 then reregA n else { hash := 100 + n, parent := if n = 4 then 4 else 99 + n, evs := [] }
+def reregP : P := { depth := 3, first := 0 }
+def reregSt : St := sync reregP (sync reregP {} reregA 5 5) reregB 6 6
+
+/-- the position is on the canonical chain `reregB`, whose block 1 registers key 9 — and no row is stored -/
+theorem C15_reregistration_witness :
+    reregSt.pos = some (6, (reregB 6).hash) ∧ reregSt.rows = [] ∧
+      expected reregP reregB 6 = [{ key := 9, block := 1, payload := 90 }] := by decide
+
 end Shutter.Properties.C15
